@@ -1,6 +1,7 @@
 """C15 — sampling overheads match the documented closed forms."""
 from __future__ import annotations
 
+import copy
 import json
 import math
 import numpy as np
@@ -22,7 +23,9 @@ THEOREMS = ["CKT.C15." + t for t in [
 RULE = ("kappa / overhead / probabilities of every documented family at special and random angles in [-8pi, 8pi] (KAK gates incl. near-special "
         "Weyl points) against the model's coefficient polynomials and the documented closed form; histories of coefficient reassignment on "
         "hand-made and gate bases (dyadic vectors, wrong lengths, in-place edits of the returned container followed by fresh constructions); "
-        "random local conjugations (equal kappa); every row of the docs table evaluated against the code; distinct by payload")
+        "random local conjugations (equal kappa); every row of the docs table evaluated against the code; histories spread over shallow / deep "
+        "copies of one basis (every object alive checked against its own coefficients after every step); KAK-path gates (rzx, xx+-yy, open-"
+        "controlled rotations, local conjugations of rzz/rxx/ryy/crz/cp) 4e-9 .. 5e-8 rad from a locally trivial gate; distinct by payload")
 ASSUMPTIONS = ["Qiskit maps rzx / xx+-yy to Weyl coordinates (theta/2,0,0) / (theta/4,theta/4,0) (checked numerically per case through the real basis)",
                "numpy float arithmetic on dyadic coefficient vectors is exact (kappa, overhead compared exactly; probabilities to 1e-12)"]
 TOL = 1e-9
@@ -45,6 +48,9 @@ NPARAM = {"rxx": 1, "ryy": 1, "rzz": 1, "rzx": 1, "crx": 1, "cry": 1, "crz": 1, 
 
 def closed_form(name, params):
     th = params[0] if params else 0.0
+    if name.startswith("open:"):
+        # ctrl_state=0 variant = (X (x) 1) G (X (x) 1): locally equivalent to the documented gate, hence the same kappa
+        name = name[5:]
     if name in ("rxx", "ryy", "rzz", "rzx"):
         return 1 + 2 * abs(math.sin(th))
     if name in ("crx", "cry", "crz", "cp"):
@@ -80,8 +86,46 @@ def _dyadic_vec(rng, n):
     return v
 
 
+# several basis objects that share state through copies, one of them reassigned: (mode, container) per case, see run_real
+SHARE_MODES = ("chain", "behind", "deepchain")
+# offsets (rad) from a locally trivial point, all well inside double precision of the angle but with |sin| of order 1e-8
+HAIR = (1e-8, -1.7e-8, 4e-9, 3e-8)
+
+
+def _share_family():
+    F = Fraction
+    hand = [([F(1, 2), F(-1, 4), F(1, 8)], [[F(1), F(0), F(0)], [F(1, 4), F(1, 4), F(-1, 2)]]),
+            ([F(3), F(-1), F(1, 2), F(1, 2)], [[F(1, 8), F(1, 8), F(-2), F(1)], [F(1), F(1), F(1)], [F(0), F(0), F(0), F(5, 4)]]),
+            ([F(1, 4), F(3, 4)], [[F(-1, 2), F(1, 2)]])]
+    for mode in SHARE_MODES:
+        for (init, hist), cont in zip(hand, ("list", "ndarray", "tuple")):
+            yield ("setter", {"nmaps": len(init), "init": [frac(x) for x in init], "hist": [[frac(x) for x in h] for h in hist], "gate": None,
+                              "container": cont, "share": mode, "always_oracle": True})
+    for mode in ("chain", "behind"):
+        for name, params, n in (("rzz", [0.7], 6), ("cx", [], 6), ("move", [], 8), ("rzx", [1.1], 58)):
+            hist = [[F(1)] + [F(0)] * (n - 1), [F((-1) ** i * (i + 1), 8) for i in range(n)]]
+            yield ("setter", {"nmaps": n, "init": None, "hist": [[frac(x) for x in h] for h in hist], "gate": name, "params": params,
+                              "share": mode, "always_oracle": True})
+
+
+def _hair_family():
+    pi = math.pi
+    # gates without an explicit decomposition (KAK path) a hair away from a locally trivial gate: the closed form still applies
+    for name, period, betas in (("rzx", pi, None), ("xx_plus_yy", 2 * pi, (0.0, 0.7, -2.1, 0.4)), ("xx_minus_yy", 2 * pi, (0.7, 0.0, 1.3, -2.1)),
+                                ("open:crz", 2 * pi, None), ("open:crx", 2 * pi, None), ("open:cry", 2 * pi, None), ("open:cp", 2 * pi, None)):
+        for i, (k, d) in enumerate(zip((0, 1, -2, 3), HAIR)):
+            th = k * period + d
+            yield ("kappa", {"gate": name, "params": [th] if betas is None else [th, betas[i]], "always_oracle": True})
+    # ... and local conjugations (V1 x V2) G(theta) (V3 x V4) of explicitly decomposed gates at such angles: equal kappa
+    for j, (name, period) in enumerate((("rzz", pi), ("rxx", pi), ("ryy", pi), ("crz", 2 * pi), ("cp", 2 * pi))):
+        for i, (k, d) in enumerate(zip((0, -1, 2), HAIR)):
+            yield ("local", {"gate": name, "params": [k * period + d], "seeds": [1000 * j + 10 * i + t for t in range(4)], "always_oracle": True})
+
+
 def cases(rng, tier):
     reps = 4 if tier == "quick" else 40
+    yield from _share_family()
+    yield from _hair_family()
     # sub-normalised coefficient vectors (1-norm below one): kappa is the 1-norm all the same, never clamped
     for init, hist in (([Fraction(1, 4), Fraction(-1, 8)], [[Fraction(1, 8), Fraction(1, 16)]]),
                        ([Fraction(1, 4)] * 3, [[Fraction(1, 2), Fraction(-1, 4), Fraction(1, 8)], [Fraction(1, 16)] * 3]),
@@ -135,6 +179,19 @@ def cases(rng, tier):
         for cls in names:
             for _ in range(2 if tier == "quick" else 10):
                 yield ("doc", {"cls": cls, "formula": formula, "theta": gen.rand_angle(rng), "beta": rng.uniform(-3, 3)})
+    # random histories spread over copies of the basis (drawn last: the streams of the families above are unchanged)
+    for _ in range(reps * 2):
+        n = rng.randint(1, 6)
+        hist = []
+        for _ in range(rng.randint(1, 4)):
+            k = n if rng.random() < 0.85 else max(0, n + rng.choice([-1, 1]))
+            hist.append([frac(x) for x in _dyadic_vec(rng, k)] if k else [])
+        yield ("setter", {"nmaps": n, "init": [frac(x) for x in _dyadic_vec(rng, n)], "hist": hist, "gate": None,
+                          "container": rng.choice(["list", "tuple", "ndarray"]), "share": rng.choice(SHARE_MODES)})
+    for _ in range(reps):
+        name = rng.choice(["rzx", "xx_plus_yy", "xx_minus_yy", "open:crz", "open:crx", "open:cry", "open:cp"])
+        th = rng.randint(-4, 4) * (math.pi if name == "rzx" else 2 * math.pi) + rng.choice([-1, 1]) * 10 ** rng.uniform(-8.5, -7.3)
+        yield ("kappa", {"gate": name, "params": [th, rng.uniform(-3, 3)] if name.startswith("xx_") else [th]})
 
 
 def _payload_gate(kind, payload):
@@ -148,7 +205,7 @@ def _payload_gate(kind, payload):
 
 
 def _c02_kind(g):
-    return "kak" if g["gate"] in ("rzx", "xx_plus_yy", "xx_minus_yy", "unitary", "weyl") else "gate"
+    return "kak" if g["gate"] in ("rzx", "xx_plus_yy", "xx_minus_yy", "unitary", "weyl") or g["gate"].startswith("open:") else "gate"
 
 
 def model_line(kind, payload):
@@ -167,6 +224,20 @@ def model_line(kind, payload):
 def _basis(payload):
     from qiskit_addon_cutting.qpd import QPDBasis
     return QPDBasis.from_instruction(c02._gate({"gate": payload["gate"], "params": payload.get("params", [])}))
+
+
+def _own_invariants(b):
+    """the property's invariants of one basis object with respect to the coefficients it holds itself (None = they hold)"""
+    c = [float(x) for x in b.coeffs]
+    k = sum(abs(x) for x in c)
+    if abs(float(b.kappa) - k) > 1e-12 * max(1, k):
+        return f"coeffs {c} but kappa {float(b.kappa)} (1-norm {k})"
+    if abs(float(b.overhead) - k * k) > 1e-9 * max(1, k * k):
+        return f"coeffs {c} but overhead {float(b.overhead)} (kappa^2 = {k * k})"
+    pr = [float(x) for x in b.probabilities]
+    if len(pr) != len(c) or (k > 0 and any(abs(p_ - abs(x) / k) > 1e-12 for p_, x in zip(pr, c))):
+        return f"coeffs {c} but probabilities {pr}, |c|/kappa = {[abs(x) / k for x in c] if k > 0 else None}"
+    return None
 
 
 def _state(b):
@@ -193,8 +264,19 @@ def run_real(kind, payload):
         else:
             b = _basis(payload)
         out = [{"ok": _state(b)}]
-        for cs in payload["hist"]:
+        # "share": the history is spread over several basis objects related by copies (the way to derive a variant of a basis that keeps
+        # the maps).  chain: every assignment goes to a fresh copy.copy of the object assigned last; behind: a copy.copy is taken before
+        # every assignment and kept; deepchain: as chain with copy.deepcopy.  The assigned object's states are the plain history's states;
+        # in addition EVERY object alive must describe the coefficient vector it holds itself, after every step.
+        share = payload.get("share")
+        alive = []
+        for step, cs in enumerate(payload["hist"], 1):
             _ = (b.kappa, b.overhead, list(b.probabilities))  # read before the assignment (a stale cache must not survive it)
+            if share in ("chain", "deepchain"):
+                alive.append((f"the basis assigned in step {step - 1}" if step > 1 else "the original basis", b))
+                b = copy.copy(b) if share == "chain" else copy.deepcopy(b)
+            elif share == "behind":
+                alive.append((f"the copy.copy taken before step {step}", copy.copy(b)))
             try:
                 given = box([float(Fraction(c)) for c in cs])
                 b.coeffs = given
@@ -203,6 +285,12 @@ def run_real(kind, payload):
                 out.append({"ok": _state(b)})
             except ValueError:
                 out.append({"error": "ValueError", "state": _state(b)})
+            for who, o in alive:
+                bad = _own_invariants(o)
+                if bad:
+                    how = {"chain": "its copy.copy", "deepchain": "its copy.deepcopy", "behind": "the basis it was copied from"}[share]
+                    return {"ok": out[:-1] + [{"ok": dict(_state(b), kappa=float("nan"))}],
+                            "note": f"step {step}: after coefficients were assigned to {how}, {who} has {bad}"}
         return {"ok": out}
     if kind == "alias":
         b1 = QPDBasis.from_instruction(c02._gate({"gate": payload["g1"], "params": payload["p1"]}))
@@ -350,7 +438,7 @@ def oracle(kind, payload):
     s = real["ok"]
     g = _payload_gate(kind, payload)
     cf = closed_form(g["gate"], g["params"]) if g else None
-    if cf is not None and abs(s["kappa"] - cf) > 1e-8:
+    if cf is not None and abs(s["kappa"] - cf) > 1e-9:
         return f"kappa of {g['gate']}{g['params']} is {s['kappa']}, documented closed form {cf}"
     if s["kappa"] < 1 - 1e-9:
         return f"kappa {s['kappa']} < 1"
@@ -359,8 +447,9 @@ def oracle(kind, payload):
     k = sum(abs(c) for c in s["coeffs"])
     if any(abs(p - abs(c) / k) > 1e-12 for p, c in zip(s["probs"], s["coeffs"])):
         return "probabilities are not the normalised absolute coefficients"
-    if kind == "local" and abs(s["kappa"] - s["kappa_conj"]) > 1e-7:
-        return f"kappa changes under local conjugation: {s['kappa']} vs {s['kappa_conj']}"
+    if kind == "local" and abs(s["kappa"] - s["kappa_conj"]) > 1e-9:
+        return (f"kappa changes under local conjugation: {s['kappa']} for {g['gate']}{g['params']} vs {s['kappa_conj']} for "
+                f"(V1 x V2) G (V3 x V4) with Haar seeds {payload['seeds']}")
     if kind == "doc":
         f = DOC_FORMS.get(payload["formula"])
         if f is not None and abs(f(payload["theta"]) - s["overhead"]) > 1e-7:
